@@ -233,9 +233,9 @@ def observe(seed, tier, extra_args=()):
     t0 = time.time()
     exe = common.go_build("schedrun")
     if tier == "quick":
-        plans = [["-count", "600", "-maxjobs", "24", "-backlog", "1100"], ["-count", "150", "-maxjobs", "24"]]
+        plans = [["-count", "600", "-maxjobs", "24", "-backlog", "1100", "-fanin", "70000", "-lateenq", "6500", "-manyfail", "48"], ["-count", "150", "-maxjobs", "24"]]
     else:
-        plans = [["-count", "12000", "-maxjobs", "24", "-backlog", "1100"], ["-count", "3000", "-maxjobs", "80"], ["-count", "300", "-maxjobs", "400", "-backlog", "5000"]]
+        plans = [["-count", "12000", "-maxjobs", "24", "-backlog", "1100", "-fanin", "140000", "-lateenq", "12000", "-manyfail", "300"], ["-count", "3000", "-maxjobs", "80"], ["-count", "300", "-maxjobs", "400", "-backlog", "5000"]]
     summary = {"executions": 0, "events": 0, "replay_full_ok": 0, "replay_core_ok": 0, "final": 0,
                "mismatch_full": [], "mismatch_core": [], "oracle_hits": {}, "hangs": 0, "gated": gated,
                "distribution": {"n": {}, "coe": {}, "shape": {}, "ret": {}, "faults": {}, "jobs_hist": {}},
@@ -261,6 +261,21 @@ def observe(seed, tier, extra_args=()):
             recs += [json.loads(l) for l in out.split("\n") if l.strip()]
         if restarts:
             summary["restarts_after_stuck_execution"] = summary.get("restarts_after_stuck_execution", 0) + restarts
+        # the scripted wide fan-in (no hooks, judged directly): the job runs once, after all of its dependencies
+        for fr in [r for r in recs if r.get("kind") == "fanin"]:
+            summary["fanin"] = {k: fr[k] for k in ("deps", "j_runs", "deps_done_at_first_start", "wait_returned")}
+            what = None
+            if fr["j_runs"] != 1:
+                what = "a job depending on %d unfinished jobs ran %d times" % (fr["deps"], fr["j_runs"])
+            elif fr["deps_done_at_first_start"] != fr["deps"]:
+                what = "a job depending on %d unfinished jobs started when only %d of them had finished" % (fr["deps"], fr["deps_done_at_first_start"])
+            if what:
+                summary["oracle_hits"].setdefault("C01", []).append({"what": what, "all": [what], "case": -1, "plan": plan, "seed": seed * 1000 + pi,
+                                                                     "cfg": {"scripted": "fanin", "deps": fr["deps"], "n": 4}, "wait_err": fr["wait_err"], "events": []})
+            if not fr["wait_returned"]:
+                summary["oracle_hits"].setdefault("C05", []).append({"what": "Wait did not return within 30 s after a job depending on %d jobs was submitted" % fr["deps"], "all": [], "case": -1, "plan": plan,
+                                                                     "seed": seed * 1000 + pi, "cfg": {"scripted": "fanin", "deps": fr["deps"], "n": 4}, "wait_err": [], "events": []})
+        recs = [r for r in recs if r.get("kind") != "fanin"]
         # a watchdog expiry without a stable all-blocked dump is slowness (machine under load), not a
         # hang: decide such an execution again with a much longer watchdog
         for k, r in enumerate(recs):
